@@ -17,6 +17,8 @@ Record case := {
   ckey : bool;                         (* client_address_key configured *)
   cact : action; cnores : noresult; ctemplate : bool; clookup : bool;
   cfind : find_out; cgetd : get_out; cfs : fs_out;
+  cmethod_ok : bool;                   (* HTTP method accepted by the handler (GET/HEAD resp. POST); TFTP: true *)
+  cbad_body : bool; cstore_fault : bool;  (* sqlite_update: unparsable request body; failing data store *)
   p4tab : list (str * pres); p6tab : list (str * pres);
   cref : option bool                   (* independent membership decision built on the ipaddress module *)
 }.
@@ -27,7 +29,7 @@ Record obs := { ocode : N; ocount : N }.
 Definition cres_code (r : cres) : N :=
   match r with CFalse => 0 | CTrue => 1 | CValueError => 2 | CTypeError => 3 end.
 Definition hres_code (r : hres) : N :=
-  match r with HContent => 0 | HNotFound => 1 | HForbidden => 2 | HError => 3 | HOk => 4 end.
+  match r with HContent => 0 | HNotFound => 1 | HForbidden => 2 | HError => 3 | HOk => 4 | HBadRequest => 5 | HMethod => 6 end.
 
 Definition fcfg_of (c : case) : fcfg :=
   {| key_set := ckey c; cfg_list := centries c; act := cact c; nores := cnores c;
@@ -37,14 +39,20 @@ Definition fenv_of (c : case) : fenv := {| find := cfind c; getd := cgetd c; fs 
 Definition P4 (c : case) := tab_pton (p4tab c).
 Definition P6 (c : case) := tab_pton (p6tab c).
 
-Definition run_model (c : case) : obs :=
+Definition run_req (c : case) : obs :=
   match ckind c with
   | KContains => {| ocode := cres_code (contains (P4 c) (P6 c) (craise c) (centries c) (cclient c)); ocount := 0 |}
   | KFile => let r := file_handle (P4 c) (P6 c) (fcfg_of c) (fenv_of c) (cclient c) in
              {| ocode := hres_code (fst r); ocount := snd r |}
-  | KUpdate => let r := update_handle (P4 c) (P6 c) (ckey c) (centries c) (cgetd c) (cclient c) in
+  | KUpdate => let r := update_handle_f (P4 c) (P6 c) (cbad_body c) (cstore_fault c) (ckey c) (centries c) (cgetd c) (cclient c) in
                {| ocode := hres_code (fst r); ocount := snd r |}
   end.
+
+(* the HTTP wrappers refuse other methods before anything else happens *)
+Definition method_refused (c : case) : bool :=
+  match ckind c with KContains => false | _ => negb (cmethod_ok c) end.
+Definition run_model (c : case) : obs :=
+  if method_refused c then {| ocode := 6; ocount := 0 |} else run_req c.
 
 (* ---- the property as a checker ---- *)
 Definition chk (b : bool) (name : string) : list string := if b then [] else [name].
@@ -74,10 +82,10 @@ Definition granted_code (c : case) (code : N) : bool :=
   match ckind c with
   | KContains => code =? 1
   | KFile => (code =? 0) || (code =? 1)          (* content, or the not-found decision that follows the check *)
-  | KUpdate => code =? 4
+  | KUpdate => (code =? 4) || (code =? 5)       (* applied, or the body was looked at *)
   end.
 
-Definition holds (c : case) (o : obs) : list string :=
+Definition holds_req (c : case) (o : obs) : list string :=
   match ckind c with
   | KContains =>
       chk (implb (negb (craise c) && cwell_typed c) (ocode o =? (if cmember c then 1 else 0))) "membership_spec" ++
@@ -97,10 +105,15 @@ Definition holds (c : case) (o : obs) : list string :=
               end)) "no_leak" ++
       match cref c with
       | Some false => chk (implb (crestricted c) ((ocount o =? 0) && negb (granted_code c (ocode o)))) "ipaddress_decision_denies"
-      | Some true => chk (implb (crestricted c && cwell_typed c) (negb (ocode o =? 2))) "ipaddress_decision_allows"
+      | Some true => chk (implb (crestricted c && cwell_typed c) (negb ((ocode o =? 2) && (ocount o =? 0))))
+                         "ipaddress_decision_allows"
       | None => []
       end
   end.
+
+Definition holds (c : case) (o : obs) : list string :=
+  if method_refused c then chk ((ocode o =? 6) && (ocount o =? 0)) "method_refused_before_anything"
+  else holds_req c o.
 
 (* ---- validity: oracle tables with the libc length facts; reference agrees with the specification ---- *)
 Definition tab_ok (n : nat) (t : list (str * pres)) : bool :=
@@ -146,21 +159,23 @@ Definition dec_act (z : Z) : option action :=
 Definition dec_find (z : Z) : option find_out :=
   match z with 0%Z => Some FFound | 1%Z => Some FNone | 2%Z => Some FRaise | _ => None end.
 Definition dec_fs (z : Z) : option fs_out :=
-  match z with 0%Z => Some FsContent | 1%Z => Some FsMissing | 2%Z => Some FsOSError | _ => None end.
+  match z with 0%Z => Some FsContent | 1%Z => Some FsMissing | 2%Z => Some FsOSError
+             | 3%Z => Some FsPermission | 4%Z => Some FsNoPath | _ => None end.
 Definition dec_ref (x : sx) : option (option bool) :=
   match x with L [] => Some None | L [I 0%Z] => Some (Some false) | L [I 1%Z] => Some (Some true) | _ => None end.
 Definition nz (z : Z) : bool := negb (z =? 0)%Z.
 
 Definition decode (x : sx) : option (case * obs) :=
   match x with
-  | L [I k; I r; ents; clx; I key; I a; I nr; I tp; I lk; I fd; gd; I f; t4; t6; rf; L [I oc; I on]] =>
+  | L [I k; I r; ents; clx; I key; I a; I nr; I tp; I lk; I fd; gd; I f; I mok; I bb; I sf; t4; t6; rf; L [I oc; I on]] =>
       obind (asStr clx) (fun cl => obind (dec_kind k) (fun k => obind (asListOf dec_entry ents) (fun ents =>
       obind (dec_act a) (fun a => obind (dec_find fd) (fun fd => obind (dec_getd gd) (fun gd =>
       obind (dec_fs f) (fun f => obind (asListOf dec_pent t4) (fun t4 => obind (asListOf dec_pent t6) (fun t6 =>
       obind (dec_ref rf) (fun rf =>
       Some ({| ckind := k; craise := nz r; centries := ents; cclient := cl; ckey := nz key; cact := a;
                cnores := if nz nr then NRContinue else NRNotFound; ctemplate := nz tp; clookup := nz lk;
-               cfind := fd; cgetd := gd; cfs := f; p4tab := t4; p6tab := t6; cref := rf |},
+               cfind := fd; cgetd := gd; cfs := f; cmethod_ok := nz mok; cbad_body := nz bb; cstore_fault := nz sf;
+               p4tab := t4; p6tab := t6; cref := rf |},
             {| ocode := Z.to_N oc; ocount := Z.to_N on |})))))))))))
   | _ => None
   end.
